@@ -99,7 +99,7 @@ func cmpPair(res *hx.Result, x, y kv.V, typed bool) int {
 }
 
 // coercePair: CoerceComparer(w)(x, y): correspondence, and when w, x, y share a type it must equal Compare(x, y).
-func coercePair(res *hx.Result, w, x, y kv.V) {
+func coercePair(res *hx.Result, w, x, y kv.V, addCase bool) {
 	in := c29Input{Kind: "coerce", W: &w, X: x, Y: y}
 	r, p := safeCoerce(w.Go(), x.Go(), y.Go())
 	if p {
@@ -119,7 +119,9 @@ func coercePair(res *hx.Result, w, x, y kv.V) {
 	} else {
 		res.Count("coerce.mixed-type")
 	}
-	res.AddCase(fmt.Sprintf("CoerceCase %s %s %s %s %s", kv.FmtTable(&w, x, y), w.Coq(), x.Coq(), y.Coq(), hx.CoqZ(int64(r))), in)
+	if addCase {
+		res.AddCase(fmt.Sprintf("CoerceCase %s %s %s %s %s", kv.FmtTable(&w, x, y), w.Coq(), x.Coq(), y.Coq(), hx.CoqZ(int64(r))), in)
+	}
 }
 
 // triple: transitivity and equal-compatibility on a same-typed triple (oracle only).
@@ -160,7 +162,7 @@ func runC29(cfg *hx.RunCfg) (*hx.Result, error) {
 		case "cmp":
 			cmpPair(res, in.X, in.Y, false)
 		case "coerce":
-			coercePair(res, *in.W, in.X, in.Y)
+			coercePair(res, *in.W, in.X, in.Y, true)
 		case "triple":
 			triple(res, in.X, in.Y, *in.Z)
 		}
@@ -171,10 +173,10 @@ func runC29(cfg *hx.RunCfg) (*hx.Result, error) {
 	if n == 0 {
 		n = 1500
 		if thorough {
-			n = 40000
+			n = 20000
 		}
 	}
-	r := hx.NewRng(cfg.Seed)
+	r := hx.NewRng(hx.NewRng(cfg.Seed).U64()) // mixed: hx seeds k and k+1 alone give streams shifted by one draw
 
 	// ---- deterministic corpus: one case per known finding, then the edge tables
 	cmpPair(res, kv.Int("int", 5), kv.Str("a"), false)                                // Compare(5,"a") = 1 = Compare("a",5)
@@ -185,10 +187,9 @@ func runC29(cfg *hx.RunCfg) (*hx.Result, error) {
 		for i, x := range tb.Vals {
 			for j, y := range tb.Vals {
 				cmpPair(res, x, y, true)
-				// CoerceComparer specialised by a third value of the same type
-				if thorough || (i+j)%3 == 0 {
-					coercePair(res, tb.Vals[(i+j)%len(tb.Vals)], x, y)
-				}
+				// CoerceComparer specialised by a third value of the same type: every pair through
+				// the oracle, every third (thorough: every) pair also through the Coq model
+				coercePair(res, tb.Vals[(i+j)%len(tb.Vals)], x, y, thorough || (i+2*j)%3 == 0)
 			}
 		}
 		step := 1
@@ -208,8 +209,8 @@ func runC29(cfg *hx.RunCfg) (*hx.Result, error) {
 	for i, ta := range tabs {
 		tb := tabs[(i*7+3)%len(tabs)]
 		for k := 0; k < 4; k++ {
-			coercePair(res, hx.Pick(r, ta.Vals), hx.Pick(r, tb.Vals), hx.Pick(r, tb.Vals))
-			coercePair(res, hx.Pick(r, ta.Vals), hx.Pick(r, ta.Vals), hx.Pick(r, tb.Vals))
+			coercePair(res, hx.Pick(r, ta.Vals), hx.Pick(r, tb.Vals), hx.Pick(r, tb.Vals), true)
+			coercePair(res, hx.Pick(r, ta.Vals), hx.Pick(r, ta.Vals), hx.Pick(r, tb.Vals), true)
 		}
 	}
 
@@ -228,14 +229,14 @@ func runC29(cfg *hx.RunCfg) (*hx.Result, error) {
 			triple(res, z, x, y)
 		case k < 70: // typed CoerceComparer
 			t := kv.GenType(r, 2)
-			coercePair(res, kv.GenVal(r, t), kv.GenVal(r, t), kv.GenVal(r, t))
+			coercePair(res, kv.GenVal(r, t), kv.GenVal(r, t), kv.GenVal(r, t), true)
 		case k < 85: // mixed stream: unrelated types
 			x, y := kv.GenVal(r, kv.GenType(r, 2)), kv.GenVal(r, kv.GenType(r, 2))
 			cmpPair(res, x, y, false)
 		default: // mixed CoerceComparer
 			w := kv.GenVal(r, kv.GenType(r, 1))
 			t := kv.GenType(r, 2)
-			coercePair(res, w, kv.GenVal(r, t), kv.GenVal(r, t))
+			coercePair(res, w, kv.GenVal(r, t), kv.GenVal(r, t), true)
 		}
 	}
 	res.Notes = append(res.Notes, "key types in the edge tables: "+strings.Join(kv.TableNames(), " "))
